@@ -239,9 +239,12 @@ ExpOK(ck, clm, t) ==
 NbfOK(ck, clm, t) ==
   \/ "nbf" \notin ck.flags \/ "nbf" \notin DOMAIN clm
   \/ (IsIntM(clm["nbf"]) /\ WLeq(clm["nbf"][3], WAdd(t, ck.nbfLee)))   \* nbf <= now + leeway
+\* byte-for-byte equality of a string member with an expected value; non-ASCII
+\* strings travel as hex ("strx" members, "#hex:" expected values)
+StrEq(mem, expect) == (mem[1] = "str" /\ mem[2] = expect) \/ (mem[1] = "strx" /\ expect = "#hex:" \o mem[2])
 StrOK(ck, clm, n) ==
   \/ n \notin ck.flags
-  \/ (n \in DOMAIN clm /\ clm[n][1] = "str" /\ n \in DOMAIN ck.expect /\ clm[n][2] = ck.expect[n])
+  \/ (n \in DOMAIN clm /\ n \in DOMAIN ck.expect /\ StrEq(clm[n], ck.expect[n]))
 ClaimsOK(ck, clm, t) ==
   ExpOK(ck, clm, t) /\ NbfOK(ck, clm, t) /\ StrOK(ck, clm, "iss") /\ StrOK(ck, clm, "sub") /\ StrOK(ck, clm, "aud")
 
